@@ -39,8 +39,21 @@ pub struct Caps<I>(pub I);
 pub trait BackYes<T> {
     fn back(&mut self) -> Option<Option<T>>;
     fn nth_back_(&mut self, k: usize) -> Option<Option<T>>;
+    fn rfind_(&mut self, pred: &mut dyn FnMut(&T) -> bool) -> Option<Option<T>>;
+    /// `rev().for_each(..)` (built on `rfold`), by value
+    fn rev_all_(self) -> Option<Vec<T>>
+    where
+        Self: Sized;
 }
 impl<T, I: DoubleEndedIterator<Item = T>> BackYes<T> for Caps<I> {
+    fn rfind_(&mut self, pred: &mut dyn FnMut(&T) -> bool) -> Option<Option<T>> {
+        Some(self.0.rfind(|t| pred(t)))
+    }
+    fn rev_all_(self) -> Option<Vec<T>> {
+        let mut v = vec![];
+        self.0.rev().for_each(|t| v.push(t));
+        Some(v)
+    }
     fn back(&mut self) -> Option<Option<T>> {
         Some(self.0.next_back())
     }
@@ -53,6 +66,15 @@ pub trait BackNo<T> {
         None
     }
     fn nth_back_(&mut self, _k: usize) -> Option<Option<T>> {
+        None
+    }
+    fn rfind_(&mut self, _pred: &mut dyn FnMut(&T) -> bool) -> Option<Option<T>> {
+        None
+    }
+    fn rev_all_(self) -> Option<Vec<T>>
+    where
+        Self: Sized,
+    {
         None
     }
 }
@@ -102,6 +124,10 @@ pub trait DynIter<T> {
     fn for_each_(self: Box<Self>, f: &mut dyn FnMut(T));
     /// `find` (built on `try_fold`)
     fn find_(&mut self, pred: &mut dyn FnMut(&T) -> bool) -> Option<T>;
+    /// `rfind` (built on `try_rfold`); `None` = not double-ended
+    fn rfind_(&mut self, pred: &mut dyn FnMut(&T) -> bool) -> Option<Option<T>>;
+    /// everything `rev().for_each(..)` visits (built on `rfold`); `None` = not double-ended
+    fn rev_all_(self: Box<Self>) -> Option<Vec<T>>;
     /// `None` = the type does not declare ExactSizeIterator
     fn xlen(&self) -> Option<usize>;
     fn hint(&self) -> (usize, Option<usize>);
@@ -120,6 +146,9 @@ macro_rules! dyn_iter_impl {
             fn count_(self: Box<Self>) -> usize { self.0 .0.count() }
             fn for_each_(self: Box<Self>, f: &mut dyn FnMut($item)) { self.0 .0.for_each(|t| f(t)) }
             fn find_(&mut self, pred: &mut dyn FnMut(&$item) -> bool) -> Option<$item> { self.0 .0.find(|t| pred(t)) }
+            fn rfind_(&mut self, pred: &mut dyn FnMut(&$item) -> bool) -> Option<Option<$item>> { (&mut self.0).rfind_(pred) }
+            #[allow(unused_mut)]
+            fn rev_all_(self: Box<Self>) -> Option<Vec<$item>> { let mut c = self.0; c.rev_all_() }
             fn xlen(&self) -> Option<usize> { (&self.0).xlen() }
             fn hint(&self) -> (usize, Option<usize>) { self.0 .0.size_hint() }
             fn fused(&self) -> bool { (&self.0).fused() }
